@@ -337,6 +337,11 @@ _run_clauses = run
 def run(prog, rep):
     _run_clauses(prog, rep)
     from plint.wiring import check_zero_init
+    from plint.wiring import destroy_before_free
+    _ff = prog.unit("pmutex-posix.c").fn("p_mutex_free")
+    _db = destroy_before_free(_ff, "pthread_mutex_destroy")
+    rep.ob("C01.1", _ff, "free:destroy", not _db, "p_mutex_free destroys the native object (pthread_mutex_destroy) before it releases the memory, on every path" if not _db else
+           "line %d: %s: the native mutex is never destroyed" % _db[0], _db[0][0] if _db else _ff.loc[0])
     check_zero_init(rep, "C01.4", prog, ['pmutex-posix.c', 'pspinlock-c11.c', 'pspinlock-sync.c', 'pspinlock-sim.c'], 1)
 
 # generic robustness battery: renaming every local/parameter in these files must not change any verdict
